@@ -3,6 +3,7 @@ package main
 import (
 	"errors"
 	"fmt"
+	"io"
 	"sync"
 	"time"
 
@@ -222,6 +223,12 @@ func c10Exec(c *mon.Ctx, r *mon.Rand, withSleep bool) {
 	name := r.Pick("call", "rpc", "x")
 	call := instrument.NewCall(sc, name)
 	n := r.Range(1, 8)
+	// a third of the histories on a subscope: the component that owns the scope
+	// closes it (and a pass runs) while the Call is still in use
+	closeAt := -1
+	if sc != tally.Scope(root) && r.Chance(1, 3) {
+		closeAt = r.Intn(n)
+	}
 	c.Eval(1)
 	var wantOK, wantErr int64
 	var outcomes []string
@@ -231,6 +238,16 @@ func c10Exec(c *mon.Ctx, r *mon.Rand, withSleep bool) {
 	var minLatency []time.Duration
 	c.Guard("panic-exec", desc, func() {
 		for i := 0; i < n; i++ {
+			if i == closeAt {
+				if cl, ok := sc.(io.Closer); ok {
+					cl.Close()
+					outcomes = append(outcomes, "(scope closed)")
+					if r.Bool() {
+						tally.VerifReportPass(root)
+						outcomes = append(outcomes, "(report pass)")
+					}
+				}
+			}
 			var retErr error
 			if r.Bool() {
 				retErr = errors.New(fmt.Sprintf("err-%d", i))
